@@ -43,6 +43,14 @@ fn install_panic_hook() {
     }));
 }
 
+/// A global tracing subscriber that formats every event and discards the text, so that the
+/// Display/Debug code inside the library's log statements executes (any deployment logs).
+fn init_logging() {
+    use tracing_subscriber::fmt;
+    let sub = fmt().with_max_level(tracing::Level::TRACE).with_writer(std::io::sink).with_ansi(false).finish();
+    let _ = tracing::subscriber::set_global_default(sub);
+}
+
 fn verif_seed() -> u64 {
     std::env::var("VERIF_SEED").ok().and_then(|s| s.trim().parse::<u64>().ok()).unwrap_or(1)
 }
@@ -67,6 +75,9 @@ fn cmd_check(id: &str, tier: &str) -> i32 {
         }
     };
     let batches = (def.batches)(tier);
+    if batches.iter().any(|b| b.profile.logging) {
+        init_logging();
+    }
     let budget = if tier == "thorough" { 1500 } else { 100 };
     let deadline = t0 + Duration::from_secs(std::env::var("VERIF_BUDGET_S").ok().and_then(|s| s.parse().ok()).unwrap_or(budget));
     // watchdog: a run that never returns (deadlock in the harness or the code under test with
@@ -107,18 +118,21 @@ fn cmd_check(id: &str, tier: &str) -> i32 {
             continue;
         }
         n_viol += 1;
-        if !seen_rules.insert(v.rule.clone()) {
+        // one report per (rule, site class): positional sites (L<life>@<index>) fall into one class
+        let positional = v.site.starts_with('L') && v.site[1..].chars().next().map(|c| c.is_ascii_digit()).unwrap_or(false);
+        let class = if positional || v.site.starts_with("x#") || v.site.starts_with("behaviour#") { v.rule.clone() } else { format!("{}|{}", v.rule, v.site) };
+        if !seen_rules.insert(class) || seen_rules.len() > 12 {
             continue;
         }
         let b = batches.iter().find(|b| &b.name == bname).unwrap();
         let cfg = check::make_cfg(seed, b, *idx);
-        let f = check::minimise(b, &cfg, &v.rule, Duration::from_secs(60)).unwrap_or(check::Failing {
+        let f = check::minimise(b, &cfg, &v.rule, &v.site, Duration::from_secs(45)).unwrap_or(check::Failing {
             cfg: cfg.clone(),
             violation: v.clone(),
             decisions: vec![],
             hist_hash: String::new(),
         });
-        let path = check::write_replay(&format!("{}/replays", out_dir()), id, seed, b, *idx, &f, tier);
+        let path = check::write_replay(&format!("{}/replays", out_dir()), id, seed, b, *idx, &f, tier, seen_rules.len());
         println!("VIOLATION property={} replay={}", id, path);
         println!("  rule={} site={} detail={}", f.violation.rule, f.violation.site, f.violation.detail);
         exit = exit.max(1);
@@ -185,6 +199,9 @@ fn cmd_replay(path: &str) -> i32 {
     let bname = doc["batch"].as_str().unwrap();
     let b = batches.iter().find(|b| b.name == bname).expect("batch");
     let profile: profile::Profile = serde_json::from_value(doc["profile"].clone()).expect("profile");
+    if profile.logging {
+        init_logging();
+    }
     let mut cfg = exec::RunCfg { seed: doc["run_seed"].as_u64().unwrap(), ..Default::default() };
     cfg.default_zero = doc["default_zero"].as_bool().unwrap_or(false);
     cfg.entropy_seed = doc["entropy_seed"].as_u64();
